@@ -31,6 +31,8 @@ SIDE_EFFECT_EVENTS = ("store_attr", "mutate", "store_global", "store_foreign")
 class WhileMixin:
     def exec_while(self, st: ast.While, env: Dict[str, V], module):
         where = module.loc(st)
+        if self._drain_loop(st, env, module):
+            return
         why = self._worklist_form(st, env)
         if isinstance(why, str):
             if self._descent_loop(st, env, module):
@@ -77,6 +79,70 @@ class WhileMixin:
                 raise _Raise(exc, ewhere)
 
     # ------------------------------------------------------------------------------------------------------------
+    def _drain_loop(self, st: ast.While, env, module) -> bool:
+        """`while W: ... W.pop(0) ...` where the body takes exactly one item off W per iteration (in its first statement) and never
+        touches W otherwise is `for item in W: ...` (W.pop() / W.pop(-1): in reverse), leaving W empty."""
+        if not isinstance(st.test, ast.Name) or st.orelse or not st.body:
+            return False
+        w = st.test.id
+        if w not in env:
+            return False
+        pops = []
+        for i, b in enumerate(st.body):
+            for n in ast.walk(b):
+                if isinstance(n, ast.Name) and n.id == w:
+                    pops.append((i, n))
+        first = st.body[0]
+        calls = [n for n in ast.walk(first) if isinstance(n, ast.Call) and isinstance(n.func, ast.Attribute) and n.func.attr == "pop"
+                 and isinstance(n.func.value, ast.Name) and n.func.value.id == w and not n.keywords
+                 and (not n.args or (len(n.args) == 1 and isinstance(n.args[0], ast.Constant) and n.args[0].value in (0, -1)))]
+        if len(calls) != 1 or len(pops) != 1 or pops[0][0] != 0:
+            return False
+        call = calls[0]
+        # the pop must run exactly once per iteration: not under a condition, a nested loop, a comprehension or a lambda
+        for n in ast.walk(first):
+            if isinstance(n, (ast.IfExp, ast.BoolOp, ast.ListComp, ast.SetComp, ast.DictComp, ast.GeneratorExp, ast.Lambda, ast.For, ast.While, ast.If,
+                              ast.Try, ast.With)) and any(x is call for x in ast.walk(n)):
+                return False
+        if not isinstance(first, (ast.Assign, ast.AnnAssign, ast.AugAssign, ast.Expr)):
+            return False
+        for n in ast.walk(ast.Module(body=list(st.body), type_ignores=[])):
+            if isinstance(n, (ast.Break, ast.Return, ast.Yield, ast.YieldFrom, ast.While)):
+                return False
+        val = env[w]
+        if isinstance(val, PyList) and not val.loop_parts and getattr(val, "created_in", None) == self._frame_id() and isinstance(first, ast.Assign) \
+                and first.value is call:
+            return False  # the worklist form proper handles `x = W.pop()` over known items (and pushes)
+        import copy
+        forward = bool(call.args) and call.args[0].value == 0
+
+        class _Repl(ast.NodeTransformer):
+            def visit_Call(self, node):
+                if node is call_copy:
+                    return ast.copy_location(ast.Name(id="__drained__", ctx=ast.Load()), node)
+                return self.generic_visit(node)
+
+        body = copy.deepcopy(st.body)
+        call_copy = [n for n in ast.walk(body[0]) if isinstance(n, ast.Call) and isinstance(n.func, ast.Attribute) and n.func.attr == "pop"
+                     and isinstance(n.func.value, ast.Name) and n.func.value.id == w][0]
+        body[0] = _Repl().visit(body[0])
+        it: ast.expr = ast.Name(id=w, ctx=ast.Load())
+        if not forward:
+            it = ast.Call(func=ast.Name(id="reversed", ctx=ast.Load()), args=[it], keywords=[])
+        loop = ast.For(target=ast.Name(id="__drained__", ctx=ast.Store()), iter=it, body=body, orelse=[], type_comment=None)
+        ast.copy_location(loop, st)
+        ast.fix_missing_locations(loop)
+        self.exec_for(loop, env, module)
+        env.pop("__drained__", None)
+        if isinstance(val, PyList):
+            val.items.clear()  # in place: aliases of the drained list see it empty as well
+            val.loop_parts.clear()
+        else:
+            empty = PyList([])
+            empty.created_in = self._frame_id()
+            env[w] = empty
+        return True
+
     def _descent_loop(self, st: ast.While, env, module) -> bool:
         """while <test on x>: ...; x = x.<attr>      (walk down one spine of a tree)
         is the worklist loop   W = [x]; while W: x = W.pop(); if <test>: ...; W.append(x.<attr>) else: F.append(x)
